@@ -10,7 +10,9 @@ from ..common import Verdict
 from . import c05, defects
 from .c13 import decl_multiset
 
-NAMES = ["PathBuf", "Uuid", "DateTime<Utc>", "Decimal", "Url", "NaiveDate", "Duration", "OsString", "Arc<str>", "Box<Path>"]
+NAMES = ["PathBuf", "Uuid", "DateTime<Utc>", "Decimal", "Url", "NaiveDate", "Duration", "OsString", "Arc<str>", "Box<Path>",
+         # generic names with several arguments: the key is the type's text as the analysis prints it (", " between arguments)
+         "Tagged<OrderTag, u64>", "Either<Left, Right>"]
 TARGETS = ["string", "number", "boolean"]
 PRIM_OF = {"string": rg.P("String"), "number": rg.P("f64"), "boolean": rg.P("bool")}
 NEAR_MISS = ["PathBufExt", "MyUuid", "Uuids", "DateTimeRange", "DecimalPlaces", "UrlParts", "Utc", "Path"]
